@@ -433,6 +433,100 @@ def _other_clock(fn: pf.FuncDef, e: ast.AST, clock: Optional[str], now: str) -> 
     return None
 
 
+def _attr_const(m: pf.Module, cls: ast.ClassDef, attr: str) -> Optional[Fraction]:
+    """Value of `self.<attr>` when it is a numeric constant of the class: bound exactly once (in __init__ from a constant expression, or as a
+    class-level constant) and never written anywhere else in the class."""
+    stores = [n for n in ast.walk(cls) if isinstance(n, ast.Attribute) and n.attr == attr and isinstance(n.ctx, (ast.Store, ast.Del))
+              and isinstance(n.value, ast.Name) and n.value.id in ('self', 'cls', cls.name)]
+    par = m.parents()
+    clsdefs = [st for st in cls.body if isinstance(st, (ast.Assign, ast.AnnAssign)) and getattr(st, 'value', None) is not None
+               and any(isinstance(t, ast.Name) and t.id == attr for t in (st.targets if isinstance(st, ast.Assign) else [st.target]))]
+    if len(stores) + len(clsdefs) != 1:
+        return None
+    if clsdefs:
+        return af.const_number(m, clsdefs[0].value)  # type: ignore[arg-type]
+    st = par.get(stores[0])
+    f = m.enclosing_func(stores[0])
+    if isinstance(st, ast.Assign) and len(st.targets) == 1 and f is not None and f.name == '__init__' and isinstance(stores[0].ctx, ast.Store) \
+            and any(st is x for x in f.body):
+        return af.const_number(m, st.value)
+    return None
+
+
+def _after_def_before_use(cfg: pf.CFG, D: pf.Node, U: pf.Node) -> List[pf.Node]:
+    """Nodes that can execute after D and before some evaluation of U without D being executed again in between (U itself included when
+    it lies on a cycle that avoids D)."""
+    fwd: Set[int] = set()
+    stack = [x for x, _ in D.succ]
+    while stack:
+        n = stack.pop()
+        if n.id in fwd or n is D:
+            continue
+        fwd.add(n.id)
+        stack.extend(x for x, _ in n.succ)
+    bwd: Set[int] = set()
+    stack = [x for x, _ in U.pred]
+    while stack:
+        n = stack.pop()
+        if n.id in bwd or n is D:
+            continue
+        bwd.add(n.id)
+        stack.extend(x for x, _ in n.pred)
+    return [n for n in cfg.nodes if n.id in fwd and n.id in bwd]
+
+
+def _time_norm(m: pf.Module, cls: ast.ClassDef, fn: pf.FuncDef, cfg: pf.CFG, e: ast.AST, now: str, N: pf.Node, U: pf.Node, depth: int = 4) -> ast.AST:
+    """`e` (evaluated at CFG node U) rewritten over the atoms head / now / window: module-level and class-level numeric constants are
+    replaced by their value; a local other than the clock local is replaced by its defining expression when that is its only definition,
+    the definition is (re)computed after the clock read N on every path from N to U (so it speaks about the same `now`), and - if it reads
+    the deque - nothing pops or appends between the definition and U.  Anything else is left in place (the caller's linear form then
+    declines)."""
+    import copy
+
+    class _S(ast.NodeTransformer):
+        def __init__(self, d: int, at: pf.Node):
+            self.d, self.at = d, at
+
+        def visit_Lambda(self, node):  # noqa: N802
+            return node
+
+        def visit_Attribute(self, node: ast.Attribute):  # noqa: N802
+            s = pf.nsrc(node)
+            if s in (WINDOW, COUNT, ITEMS) or not isinstance(node.ctx, ast.Load):
+                return self.generic_visit(node)
+            if isinstance(node.value, ast.Name) and node.value.id in ('self', cls.name):
+                c = _attr_const(m, cls, node.attr)
+                if c is not None:
+                    return ast.copy_location(ast.Constant(value=int(c) if c.denominator == 1 else float(c)), node)
+            return self.generic_visit(node)
+
+        def visit_Name(self, node: ast.Name):  # noqa: N802
+            if not isinstance(node.ctx, ast.Load) or node.id == now or self.d <= 0:
+                return node
+            dn = cf.def_nodes(cfg, node.id)
+            if not dn and node.id not in pf.assignments(fn):
+                c = af.const_number(m, node)
+                if c is not None:
+                    return ast.copy_location(ast.Constant(value=int(c) if c.denominator == 1 else float(c)), node)
+                return node
+            dd = pf.single_def(fn, node.id)
+            if len(dn) != 1 or dd is None or not isinstance(dd, ast.expr) or isinstance(dd, (ast.Await, ast.Yield, ast.YieldFrom)):
+                return node
+            D = dn[0]
+            if not (isinstance(D.ast, (ast.Assign, ast.AnnAssign)) and D.ast.value is dd):
+                return node
+            if D is self.at or not cfg.dominated_by(self.at, lambda n: n is D):
+                return node
+            if cfg.path_avoiding(N, lambda n: n is self.at, lambda n: n is D) is not None:
+                return node  # some path from the clock read to the use does not recompute the local: it can speak about an older `now`
+            if af.mentions(dd, ITEMS) and any(any(isinstance(c.func, ast.Attribute) and pf.nsrc(c.func.value) == ITEMS for c in pf.node_calls(x))
+                                               for x in _after_def_before_use(cfg, D, self.at)):
+                return node  # the deque can change between the definition and (a later evaluation of) the use
+            return _S(self.d - 1, D).visit(copy.deepcopy(dd))
+
+    return _S(depth, U).visit(copy.deepcopy(e))
+
+
 def _window(ctx: Ctx, m: pf.Module, cls: ast.ClassDef, fn: pf.FuncDef, cfg: pf.CFG, q: str, recs: List[Rec], uses) -> None:
     """R3 (eviction loop) and R4 (sleep): both are stated relative to the clock local that is recorded."""
     nows = sorted({r.now for r in recs if r.now is not None})
@@ -490,22 +584,35 @@ def _window(ctx: Ctx, m: pf.Module, cls: ast.ClassDef, fn: pf.FuncDef, cfg: pf.C
                   'IndexError once every entry has left the window', m.path, lp.lineno)
         if rest:
             ctx.need(conj.index(rest[0]) < conj.index(cmps[0]), f'{q}: the emptiness test does not precede the head comparison')
-        oc = _other_clock(fn, cmps[0], clock, now)
+        cmpN = _time_norm(m, cls, fn, cfg, cmps[0], now, N, E)
+        ctx.need(isinstance(cmpN, ast.Compare), f'{q}: eviction comparison not recognised')
+        oc = _other_clock(fn, cmps[0], clock, now) or _other_clock(fn, cmpN, clock, now)
         if oc is not None:
             ctx.bad('R3', consE + '::clock', f'the eviction condition `{pf.nsrc(cmps[0])}` measures the window with `{oc}` while the entries are recorded with {clock}(): '
                     'the two clocks have different epochs, so entries are evicted at once (no limiting) or never (nobody is admitted again)', m.path, lp.lineno)
             af.blocked(ctx, 'R3', 'R3')
         else:
             atoms = {f'{ITEMS}[0]': 'head', now: 'now', WINDOW: 'W'}
-            nz = af.compare_leq_zero(cmps[0], atoms)
-            ctx.need(nz is not None, f'{q}: eviction comparison `{pf.nsrc(cmps[0])}` is not linear in head / {now} / {WINDOW}')
+            nz = af.compare_leq_zero(cmpN, atoms)  # type: ignore[arg-type]
+            ctx.need(nz is not None, f'{q}: eviction comparison `{pf.nsrc(cmps[0])}`' + (f' (= `{pf.nsrc(cmpN)}`)' if pf.nsrc(cmpN) != pf.nsrc(cmps[0]) else '')
+                     + f' is not linear in head / {now} / {WINDOW}')
             d, strict = nz  # type: ignore[misc]
             okd = d == WANT
+            off = af.lin_sub(d, WANT)
+            if okd and strict:
+                why = '(an entry exactly one window old is outside the window: with `<` it is kept, the waiter sleeps 0 s and re-tests without ever being admitted at that instant)'
+            elif set(off) == {'1'}:
+                c0 = off['1']
+                g = float(-c0) if c0 < 0 else float(c0)
+                why = (f'(an entry is dropped while it is still up to {g:g} s inside the window: with the window full, oldest entry at t0, an arrival at any t in '
+                       f'(t0 + W - {g:g}, t0 + W) evicts it and is admitted, so [t0, t0 + W) holds count + 1 admissions; the early stamp carries over to the next generation)'
+                       if c0 < 0 else
+                       f'(an entry is kept for {g:g} s after it left the window: a caller that could be admitted at t0 + W is refused and sleeps a non-positive time, '
+                       f're-testing until t0 + W + {g:g}: not admitted as soon as possible)')
+            else:
+                why = '(entries are evicted too early -> rate exceeded, or too late -> not admitted when possible)'
             ctx.check(okd and not strict, 'R3', consE + f'::condition `{pf.nsrc(cmps[0])}`',
-                      (f'evicts while {af.lin_str(d)} {"<" if strict else "<="} 0, the half-open window requires head - now + W <= 0 '
-                       + ('(an entry exactly one window old is outside the window: with `<` it is kept, the waiter sleeps 0 s and re-tests without ever being admitted at that instant)'
-                          if okd and strict else '(entries are evicted too early -> rate exceeded, or too late -> not admitted when possible)')),
-                      m.path, lp.lineno)
+                      f'evicts while {af.lin_str(d)} {"<" if strict else "<="} 0, the half-open window requires head - now + W <= 0 ' + why, m.path, lp.lineno)
         body_ok = len(lp.body) == 1 and isinstance(lp.body[0], ast.Expr) and pf.call_name(lp.body[0].value) == f'{ITEMS}.popleft' and not lp.orelse
         ctx.check(body_ok, 'R3', consE + '::body', f'the eviction loop body is `{"; ".join(pf.nsrc(s) for s in lp.body)}`, not a single `{ITEMS}.popleft()`',
                   m.path, lp.lineno)
@@ -550,8 +657,8 @@ def _window(ctx: Ctx, m: pf.Module, cls: ast.ClassDef, fn: pf.FuncDef, cfg: pf.C
         c = calls[0].value
         ctx.need(isinstance(c, ast.Call) and pf.dotted(c.func) == 'asyncio.sleep' and len(c.args) == 1 and not c.keywords,
                  f'{q}: suspension `{S.text()}` is not asyncio.sleep(x)')
-        amount = pf.resolve_expr(fn, c.args[0])  # type: ignore[union-attr]
-        oc = _other_clock(fn, amount, clock, now)
+        amount = _time_norm(m, cls, fn, cfg, c.args[0], now, N, S)  # type: ignore[union-attr]
+        oc = _other_clock(fn, pf.resolve_expr(fn, c.args[0]), clock, now) or _other_clock(fn, amount, clock, now)  # type: ignore[union-attr]
         if oc is not None:
             ctx.bad('R4', consS + '::clock', f'the sleep amount `{pf.nsrc(amount)}` is computed with `{oc}` while the entries are recorded with {clock}(): '
                     'the difference of two clocks is not the time until the oldest entry leaves the window', m.path, S.lineno)
